@@ -626,10 +626,10 @@ _HIRSH_Z = [1, 6, 8, 7]
 _PROG_CACHE = {}
 
 
-def _load_json(path):
-    import os
-    key = (str(path), os.path.getmtime(path))
-    if key not in _PROG_CACHE:
+def _load_json(path, fresh=False):
+    """Parent: ``fresh=True`` after TLC wrote the file.  Workers forked afterwards find it in the cache."""
+    key = str(path)
+    if fresh or key not in _PROG_CACHE:
         with open(path) as f:
             _PROG_CACHE[key] = json.load(f)
     return _PROG_CACHE[key]
@@ -1223,7 +1223,9 @@ def _report_some(rep, items, counter_name):
 def run(tier: str) -> int:
     rep = Report(PROP, tier, "model_checking")
     rng = np.random.default_rng(rep.seed)
-    wd = tlc.scratch(f"{PROP}-{tier}")
+    import os
+    # the selftest works in its own scratch directory so that it cannot collide with a concurrent ./check C06
+    wd = tlc.scratch(os.environ.get("VERIF_C06_SCRATCH") or f"{PROP}-{tier}")
     quick = tier == "quick"
     maxm, maxn = (5, 10) if quick else (6, 14)
     defined = defined_radii()
@@ -1254,7 +1256,7 @@ def run(tier: str) -> int:
             points = json.load(open(wd / "becke_points.json"))
             programs = json.load(open(wd / "becke_programs.json"))
             fallback = [tuple(x) for x in json.load(open(wd / "becke_fallback.json"))]
-            programs_x = _load_json(wd / "becke_programs_x.json")
+            programs_x = _load_json(wd / "becke_programs_x.json", fresh=True)
             scenarios = json.load(open(wd / "becke_scenarios.json"))
         except FileNotFoundError as e:
             raise tlc.MachineryError(f"TLC did not emit {e.filename}")
@@ -1359,12 +1361,15 @@ def run(tier: str) -> int:
         njobs, per = (40, 2) if quick else (80, 20)
         jobs = [(str(wd / "becke_programs_x.json"), radii_of, rep.seed * 100000 + 50000 + i, per, undefined) for i in range(njobs)]
         impl = []
-        for n, im, m_, keys in pool.imap_unordered(_audit_worker, jobs):
-            impl += im
-            for k, v in m_.items():
-                mx[k] = max(mx.get(k, 0.0), v)
-            for k in keys:
-                rep.evaluated(1, ("3dx",) + k)
+        # a second pool, forked now: the workers inherit the already loaded extended programs (_PROG_CACHE) instead of
+        # reading the scratch directory again (the first pool is idle meanwhile)
+        with mp.get_context("fork").Pool(8) as pool_x:
+            for n, im, m_, keys in pool_x.imap_unordered(_audit_worker, jobs):
+                impl += im
+                for k, v in m_.items():
+                    mx[k] = max(mx.get(k, 0.0), v)
+                for k in keys:
+                    rep.evaluated(1, ("3dx",) + k)
         _report_some(rep, sorted(impl, key=lambda t: t[0]), "audit_geometry_violations")
         rep.set("audit_geometries", njobs * per)
         mark("audit_replay")
@@ -1469,5 +1474,10 @@ MUTANTS = [
 
 
 def selftest(tier: str) -> int:
+    import os
     from ..mutate import run_mutants
-    return run_mutants(PROP, run, tier, MUTANTS)
+    os.environ["VERIF_C06_SCRATCH"] = f"{PROP}-selftest-{tier}-wd"
+    try:
+        return run_mutants(PROP, run, tier, MUTANTS)
+    finally:
+        os.environ.pop("VERIF_C06_SCRATCH", None)
